@@ -69,6 +69,14 @@ def assigned_names(body):
             self.tgt(n.target)
             self.generic_visit(n)
 
+        def visit_Call(self, n):
+            # in-place list methods modify the receiver
+            f = n.func
+            if isinstance(f, ast.Attribute) and isinstance(f.value, ast.Name) and f.attr in (
+                    "append", "pop", "insert", "extend", "remove", "clear", "sort", "reverse"):
+                arrays.add(f.value.id)
+            self.generic_visit(n)
+
         def visit_With(self, n):
             for it in n.items:
                 if it.optional_vars is not None:
@@ -546,6 +554,14 @@ def invariant_loop(interp, node, st, man, lo, hi):
                 if man.hints and n in man.hints.get("frame_prefix", {}):
                     pass
                 state.heap[v0.id] = am
+            elif isinstance(v0, Ref) and isinstance(state.heap.get(v0.id), list):
+                # python list of scalars: every element havocked, the length is kept (checked at the end of the body)
+                l0 = state.heap[v0.id]
+                if not all(T.is_num(state.deref(x)) or T.is_boolish(state.deref(x)) for x in l0):
+                    raise Unsupported(f"list {n} with non-scalar elements modified in a loop with invariant")
+                state.heap[v0.id] = [_fresh_like(state.deref(x), f"{n}{k}_h") for k, x in enumerate(l0)]
+                list_lengths[n] = len(l0)
+    list_lengths = {}
     pre = st.snapshot()
     # ---- preserve
     havoc(st)
@@ -568,6 +584,10 @@ def invariant_loop(interp, node, st, man, lo, hi):
     exits = []
     for snap, kind, payload in results:
         if kind in ("ok", "continue"):
+            for ln, l0 in list_lengths.items():
+                lv = snap.deref(snap.env.lookup(ln))
+                if not (isinstance(lv, list) and len(lv) == l0):
+                    raise Unsupported(f"list {ln} changes its length in a loop with invariant")
             check_inv(snap, T.add(i, 1) if is_for else None, "preserve")
             if not is_for and man.decreases:
                 d1 = man.decreases(ns_of(snap))
